@@ -121,6 +121,9 @@ func (s *Session) Exec(c Call) string {
 			if o.err == errBadHandle {
 				return "res\tbadhandle"
 			}
+			if os.Getenv("VERIF_DEBUG") != "" && ClassOf(o.err) == "other" {
+				fmt.Fprintf(os.Stderr, "DEBUG %s: %v\n", c.Method, o.err)
+			}
 			return "res\t" + ClassOf(o.err)
 		}
 		if o.vals == "" {
@@ -368,7 +371,12 @@ func (s *Session) TreeLines() ([]string, error) {
 				// contents through the archive interface: a read error comes back as an error there
 				// (the handle's streaming goroutine would panic on it and take the process down)
 				b, err := s.SafeCat(p)
-				if err != nil {
+				if err != nil && i.Size() == 0 {
+					// an empty file under a pipeline that cannot decode the empty stream (finding F18,
+					// reported under C03/C10): its content is taken to be empty here, so that this
+					// known deviation does not drown every other comparison of the tree
+					add(p, i, 0)
+				} else if err != nil {
 					add(p, i, -int64(len(ClassOf(err)))-1000)
 				} else {
 					add(p, i, PolyHash(b))
@@ -399,7 +407,7 @@ func lessRunes(a, b string) bool {
 }
 
 // EnvLine derives the oracle inputs of a call from what it appended.
-func EnvLine(items []TapeItem) string {
+func EnvLine(items []TapeItem, plain func(*tar.Header) *tar.Header) string {
 	now := int64(0)
 	recs := []string{}
 	for _, it := range items {
@@ -407,7 +415,11 @@ func EnvLine(items []TapeItem) string {
 			continue
 		}
 		if now == 0 {
-			now = TimeInt(it.Hdr.ModTime)
+			hh := it.Hdr
+			if plain != nil {
+				hh = plain(hh)
+			}
+			now = TimeInt(hh.ModTime)
 		}
 		recs = append(recs, fmt.Sprintf("%d:%d", it.HB, it.Stored))
 	}
